@@ -34,6 +34,20 @@ Families
   (derivative_forms also runs on options struck at the money at inception with non-dyadic strikes 0.9, 1.03, 1.05, 1.3
    - every path starts exactly at the strike - and derives the state for the oracle from the buffer values in exact
    arithmetic: barrier reached <=> running max >= strike.)
+  attr_history      all histories (depth <= 3, thorough 4) of {flip .call, set .strike, copy.copy, copy.deepcopy} on each BS
+                    module: after every op every module of the history prices / hedges according to its CURRENT
+                    public attributes (bitwise the functional form / a freshly constructed module).
+  (price_grid's form "mixed" evaluates the points inside a batch that also holds an at-the-money expiry element (t = 0)
+   and a zero-volatility element: a pointwise function must not depend on the rest of the batch.  derivative_forms also
+   runs underliers with a real-world drift mu != 0 (Brownian, Merton, Kou) - the zero-rate risk-neutral quote must not
+   depend on it - and grids whose horizon is 1-2 steps shorter / longer than the option's own maturity: time to
+   maturity is counted on the registered grid, whose last step carries the payoff; resim_history mixes options of four
+   different maturities on the one stock.)
+  (wave 5: price_grid has a float64 block of tiny-but-non-zero symbols |s| in {5e-9, 1e-9, 1e-12}, t in {1e-16, 1e-18,
+   1e-12}, sigma in {0.2, 1e-4} - s/w of order 1..1e5, not the 0/0 corner - and the forms "no_grad" / "requires_grad"
+   (ambient autograd mode and differentiable inputs must not change the value); derivative_forms has worlds with a
+   USER SUBCLASS of the option class overriding moneyness() (fx * spot / strike): the module must take current AND
+   running-maximum log-moneyness through the derivative's own definition.)
   law_crosscheck    model level, no pfhedge: the two routes to the running-maximum law (Girsanov
                     quadrature over driftless Brownian motion vs textbook closed survival function), the
                     layer-cake vs density form of the lookback expectation, the homogeneity reduction
@@ -286,6 +300,28 @@ def price_grid(ctx, block):
                             res.append(float(o))
                         if res is not None:
                             outs[(form, K)] = res
+                elif form in ("no_grad", "requires_grad"):
+                    # ambient autograd mode / differentiable inputs must not change the value
+                    for K in (strikes[:1] + strikes[-1:] if HAS_STRIKE_ARG[product] else strikes[:1]):
+                        if form == "no_grad":
+                            with torch.no_grad():
+                                o = call_functional(product, S_, M_, T_, V_, K, call)
+                        else:
+                            with torch.enable_grad():
+                                o = call_functional(product, S_.clone().requires_grad_(), M_.clone().requires_grad_(),
+                                                    T_.clone().requires_grad_(), V_.clone().requires_grad_(), K, call).detach()
+                        outs[(form, K)] = _as_list(o, (n,), dtype, ctx, site, block)
+                elif form == "mixed":
+                    # the same points inside a batch that also holds an expiry element (t = 0) and a zero-volatility
+                    # element, both exactly at the money: a pointwise function must not depend on the rest of the batch
+                    z = torch.zeros(2, dtype=dtype)
+                    Sx, Mx = torch.cat([S_, z]), torch.cat([M_, z])
+                    Tx = torch.cat([T_, torch.stack([z[0], T_[0]])])
+                    Vx = torch.cat([V_, torch.stack([V_[0], z[0]])])
+                    for K in (strikes[:1] + strikes[-1:] if HAS_STRIKE_ARG[product] else strikes[:1]):
+                        o = call_functional(product, Sx, Mx, Tx, Vx, K, call)
+                        got = _as_list(o, (n + 2,), dtype, ctx, site, block)
+                        outs[(form, K)] = None if got is None else got[:n]
                 elif form == "pyfloat":
                     if not same_tv or product != "european":
                         continue
@@ -384,17 +420,32 @@ def derivative_forms(ctx, block):
     N = spot.size(0)
     if float(torch.tensor(K, dtype=dtype)) != K:
         raise HarnessError(f"strike {K} is not representable in {block['dtype']} (needed for 'spot == strike exactly')")
-    stock = market.primary("brownian", dtype=dtype, sigma=sigma, dt=dt)
+    stock = make_stock(block.get("under", "brownian"), dtype, sigma, dt, block.get("mu", 0.0))
     market.set_buffers(stock, spot=spot)
     kw = {"strike": K}
     if HAS_PUT[product]:
         kw["call"] = call
-    deriv = market.derivative(KIND[product], stock, T=T, **kw)
-    site = f"BlackScholes({type(deriv).__name__})"
-    mods = {"BlackScholes": nn.BlackScholes(deriv),
-            "from_derivative": getattr(nn, MODULE[product]).from_derivative(deriv)}
+    if block.get("maturity_offset"):
+        # the option's own maturity differs from the horizon of the registered grid (the stock was simulated for another
+        # contract): the payoff is read off the LAST simulated step, so time to maturity is counted on the grid
+        kw["maturity"] = (T - 1 + block["maturity_offset"]) * dt
+    fx = block.get("fx")
+    if fx is None:
+        deriv = market.derivative(KIND[product], stock, T=T, **kw)
+        site = f"BlackScholes({type(deriv).__name__})"
+        mods = {"BlackScholes": nn.BlackScholes(deriv),
+                "from_derivative": getattr(nn, MODULE[product]).from_derivative(deriv)}
+        eff = spot
+    else:
+        # user subclass with its own moneyness(): only from_derivative applies (BlackScholes(d) dispatches on the class name)
+        kw.setdefault("maturity", (T - 1) * dt)
+        deriv = fx_option(KIND[product], stock, fx, **kw)
+        site = f"{MODULE[product]}.from_derivative(user subclass overriding moneyness)"
+        mods = {"from_derivative": getattr(nn, MODULE[product]).from_derivative(deriv)}
+        eff = fx * spot
+    main = mods.get("BlackScholes", mods["from_derivative"])
     # -- features computed by the harness from the buffer (not through the derivative) --
-    lm = (spot / K).log()
+    lm = (eff / K).log()
     mlm = lm.cummax(dim=-1).values
     steps = torch.arange(T).to(spot) * dt
     ttm = (steps[-1] - steps).unsqueeze(0).expand(N, -1)
@@ -444,10 +495,24 @@ def derivative_forms(ctx, block):
                               f"{label}.price(None for {nn_}) != {SITE[product]} at the derivative's state "
                               f"(path {spot[r].tolist()}, step {c}, strike {K}, call {call}, sigma {sigma})",
                               observed=float(o.flatten()[i]), expected=float(ref.flatten()[i]), block=mb, family="derivative_forms")
+    # delta with every argument omitted vs an unbound module of the same class fed the harness' features
+    ref_d = make_module(product, K, call).delta(*[given[nm] for nm in names])
+    try:
+        out_d = main.delta()
+    except ValueError as e:
+        out_d = None
+        ctx.violation(site, "none_path_delta_raises:ValueError", f"BlackScholes(d).delta() raised {e}", observed=repr(e),
+                      expected="delta at the derivative's state", block=block, family="derivative_forms")
+    ctx.tick(N * (T - 1), nontrivial=N * (T - 1))
+    if out_d is not None and (tuple(out_d.shape) != tuple(ref_d.shape) or not _bitwise_equal(out_d[:, live], ref_d[:, live])):
+        ctx.violation(site, "delta_none_path_differs_from_explicit_" + ("call" if call else "put"),
+                      f"BlackScholes(d).delta() != {MODULE[product]}(call={call}, strike={K}).delta(features of the buffers)",
+                      observed=float(out_d[:, live].flatten()[0]) if tuple(out_d.shape) == tuple(ref_d.shape) else list(out_d.shape),
+                      expected=float(ref_d[:, live].flatten()[0]), block=block, family="derivative_forms")
     if market.snapshot_diff(snap, market.snapshot(deriv)):
         ctx.violation(site, "price_mutates_buffers", "price() changed the derivative's buffers", block=block, family="derivative_forms")
     # -- the all-None price against the expectation oracle, on every distinct (s, m, t) cell --
-    out = mods["BlackScholes"].price()
+    out = main.price()
     if tuple(out.shape) != (N, T):
         return
     def mini(r):
@@ -456,10 +521,11 @@ def derivative_forms(ctx, block):
         mb["rows"] = [base[r] if base is not None else r]
         return mb
 
-    oracle_cells_exact(ctx, product, spot, K, ttm, vol, out, call, dtype, site, "",
-                       lambda r, c: f"BlackScholes({type(deriv).__name__}(strike={K}, call={call})).price() on path "
-                                    f"{spot[r].tolist()} step {c} (sigma {sigma}) != E[payoff | the derivative's state]",
-                       mini, "derivative_forms")
+    if block.get("oracle", True):
+        oracle_cells_exact(ctx, product, eff, K, ttm, vol, out, call, dtype, site, "",
+                           lambda r, c: f"BlackScholes({type(deriv).__name__}(strike={K}, call={call})).price() on path "
+                                        f"{spot[r].tolist()} step {c} (sigma {sigma}) != E[payoff | the derivative's state]",
+                           mini, "derivative_forms")
     ctx.outcome((product, K, call, round(float(out[:, live].sum()), 6)))
     if len(ctx.samples) < 4:
         r = N // 2
@@ -573,6 +639,68 @@ def flag_table(ctx, block):
                                   observed=float(out[0, 0]), expected=float(ref[0, 0]), block=mb, family="flag_table")
 
 
+ATTR_OPS = ("flip_call", "set_strike", "copy", "deepcopy")
+
+
+@family
+def attr_history(ctx, block):
+    """Attribute-mutation histories on the BS modules: start from BS*(call0, strike0); ops act on the newest module:
+    flip_call (where puts are offered), set_strike (to strike1), copy.copy / copy.deepcopy (append the copy, later ops
+    mutate the copy).  After every op EVERY module of the history must price / hedge according to its CURRENT public
+    attributes: price == functional form with (module.call, module.strike) bitwise (the functional form is tied to the
+    expectation by price_grid), delta == a freshly constructed module with those attributes.
+    block: product, call0, strike0, strike1, dtype, histories [[op, ...], ...]."""
+    import copy as _copy
+    product = block["product"]
+    dtype = DT[block["dtype"]]
+    S_ = torch.tensor([-0.5, -0.125, 0.0, 0.25, 0.5], dtype=dtype)
+    M_ = torch.tensor([-0.25, 0.0, 0.125, 0.25, 0.75], dtype=dtype)
+    T_ = torch.tensor([0.25, 1.0, 0.0625, 2.0, 0.5], dtype=dtype)
+    V_ = torch.tensor([0.25, 0.5, 1.0, 0.125, 0.375], dtype=dtype)
+    site = MODULE[product]
+
+    def check(mods, hist):
+        for i, mod in enumerate(mods):
+            call, K = bool(mod.call), mod.strike
+            ref = call_functional(product, S_, M_, T_, V_, K, call)
+            out = call_module(mod, product, S_, M_, T_, V_)
+            ctx.tick(2 * S_.numel(), nontrivial=2 * S_.numel() if hist else 0)
+            mb = dict(block, histories=[hist])
+            if not _bitwise_equal(out, ref):
+                j = _first_diff(out, ref)
+                ctx.violation(site + ".price", "price_ignores_current_attributes_after_" + (hist[-1] if hist else "construction"),
+                              f"module #{i} of history {hist} has call={call}, strike={K} but price() != {SITE[product]}(call={call}, strike={K})",
+                              observed=float(out.flatten()[j]), expected=float(ref.flatten()[j]), block=mb, family="attr_history")
+            args = (S_, M_, T_, V_) if HAS_MAX[product] else (S_, T_, V_)
+            d_out = mod.delta(*args)
+            d_ref = make_module(product, K, call).delta(*args)
+            if not _bitwise_equal(d_out, d_ref):
+                j = _first_diff(d_out, d_ref)
+                ctx.violation(site + ".delta", "delta_ignores_current_attributes_after_" + (hist[-1] if hist else "construction"),
+                              f"module #{i} of history {hist} has call={call}, strike={K} but delta() differs from a fresh {site}(call={call}, strike={K})",
+                              observed=float(d_out.flatten()[j]), expected=float(d_ref.flatten()[j]), block=mb, family="attr_history")
+
+    for hist in block["histories"]:
+        if not HAS_PUT[product] and "flip_call" in hist:
+            continue
+        mods = [make_module(product, block["strike0"], block["call0"])]
+        check(mods, [])
+        for n, op in enumerate(hist, start=1):
+            cur = mods[-1]
+            if op == "flip_call":
+                cur.call = not cur.call
+            elif op == "set_strike":
+                cur.strike = block["strike1"] if cur.strike != block["strike1"] else block["strike0"]
+            elif op == "copy":
+                mods.append(_copy.copy(cur))
+            elif op == "deepcopy":
+                mods.append(_copy.deepcopy(cur))
+            check(mods, hist[:n])
+            ctx.add("transitions")
+        ctx.add("states", len(hist) + 1)
+    ctx.outcome(("attr", product, block["call0"], block["dtype"]))
+
+
 ROUTES = ("sim_via_lookback", "sim_via_american_binary", "sim_via_european", "stock_simulate", "set_buffers")
 
 
@@ -593,11 +721,12 @@ def resim_history(ctx, block):
     kinds = [("lookback", True), ("american_binary", True), ("european", True), ("european_binary", False)]
     memo = {}
     for hist in block["histories"]:
-        stock = market.primary("brownian", dtype=dtype, sigma=sigma, dt=dt)
+        stock = make_stock("brownian", dtype, sigma, dt, block.get("mu", 0.0))
         holder = {"next": None}
         market.ScriptedSimulate(stock, [lambda n, th, init: {"spot": holder["next"]}])
         market.set_buffers(stock, spot=contents[0])
-        derivs = {p: market.derivative(KIND[p], stock, T=T, strike=K, call=c) for (p, c) in kinds}
+        moff = block.get("mat_off", {})      # options of different maturities on the one stock; the grid has T points
+        derivs = {p: market.derivative(KIND[p], stock, strike=K, call=c, maturity=(T - 1 + moff.get(p, 0)) * dt) for (p, c) in kinds}
         mods = {p: nn.BlackScholes(derivs[p]) for (p, _) in kinds}
         ctx.add("traces_validated_against_impl")
 
@@ -660,6 +789,30 @@ def resim_history(ctx, block):
 # scenario arguments and several derivatives of the same kind
 # ----------------------------------------------------------------------------
 
+def fx_option(kind, stock, fx, **kw):
+    """A USER SUBCLASS of the pfhedge option class that overrides moneyness() - the documented single definition point
+    of (log-)moneyness - by a constant conversion factor: moneyness = fx * spot / strike (e.g. an option on the
+    FX-converted price).  log_moneyness / max_moneyness / max_log_moneyness of OptionMixin dispatch through it."""
+    import pfhedge.instruments as I
+    base = {"european": I.EuropeanOption, "lookback": I.LookbackOption, "european_binary": I.EuropeanBinaryOption,
+            "american_binary": I.AmericanBinaryOption}[kind]
+
+    def moneyness(self, time_step=None, log=False):
+        index = ... if time_step is None else [time_step]
+        out = self.fx * self.underlier.spot[..., index] / self.strike
+        return out.log() if log else out
+
+    cls = type("FX" + base.__name__, (base,), {"fx": fx, "moneyness": moneyness})
+    return cls(stock, **kw)
+
+
+def make_stock(under, dtype, sigma, dt, mu=0.0):
+    """Underlier whose `volatility` is the constant sigma; mu is the REAL-WORLD drift (irrelevant for the quote)."""
+    if under in ("brownian", "merton", "kou"):
+        return market.primary(under, dtype=dtype, sigma=sigma, dt=dt, mu=mu)
+    raise KeyError(under)
+
+
 def build_world(product, world, dtype, K, call):
     """A scripted derivative: world = {"under": "brownian"|"heston", "A": spot alphabet, "T", "dt", "sigma",
     "rows": optional path subset}.  Returns (derivative, features computed by the harness from the buffers)."""
@@ -679,7 +832,7 @@ def build_world(product, world, dtype, K, call):
         market.script_primary(stock, "heston", spot, variance)
         vol = variance.clamp(min=0.0).sqrt()
     else:
-        stock = market.primary("brownian", dtype=dtype, sigma=world["sigma"], dt=dt)
+        stock = make_stock(world.get("under", "brownian"), dtype, world["sigma"], dt, world.get("mu", 0.0))
         market.set_buffers(stock, spot=spot)
         vol = torch.full_like(spot, world["sigma"])
     kw = {"strike": K}
@@ -1098,7 +1251,26 @@ def run(ctx):
             for i in range(0, len(pts), chunk):
                 blocks.append({"product": product, "points": pts[i:i + chunk], "strikes": ks, "calls": calls,
                                "dtypes": ["float64", "float32"],
-                               "forms": ["flat", "module", "bcast", "scalar0", "pyfloat"]})
+                               "forms": ["flat", "module", "bcast", "scalar0", "pyfloat", "mixed", "no_grad", "requires_grad"]})
+    # tiny but non-zero log-moneyness and time (inside the domain t in (0, 5]): s/w is of order 1 .. 1e5 although both
+    # are below 1e-8 - the prices are functions of s/w and must not be confused with the 0/0 corner
+    S_TINY = ctx.pick([5e-9, -5e-9, 1e-9, -1e-12], [5e-9, -5e-9, 1e-9, -1e-9, 1e-12, -1e-12])
+    T_TINY = ctx.pick([1e-16, 1e-12], [1e-16, 1e-18, 1e-12])
+    V_TINY = [f32(0.2), 1e-4]
+    ctx.alphabet("tiny symbols (float64 only)", {"log_moneyness": S_TINY, "time_to_maturity": T_TINY, "volatility": V_TINY})
+    for product in PRODUCTS:
+        pts = []
+        for t in T_TINY:
+            for v in V_TINY:
+                for s_ in S_TINY:
+                    if not HAS_MAX[product]:
+                        pts.append([s_, None, t, v])
+                    else:
+                        pts += [[s_, m_, t, v] for m_ in sorted({s_, max(s_, 0.0), max(s_, 5e-9)})]
+        for i in range(0, len(pts), 24):
+            blocks.append({"product": product, "points": pts[i:i + 24], "strikes": [1.0, 2.5],
+                           "calls": [True, False] if HAS_PUT[product] else [True], "dtypes": ["float64"],
+                           "forms": ["flat", "module", "scalar0", "mixed", "no_grad"]})
     for b in blocks:
         jobs.append((len(b["points"]) * (3 if b["product"] == "lookback" else 1), "price_grid", b))
     workers = int(os.environ.get("VERIF_WORKERS", ctx.pick(4, 8)))
@@ -1131,13 +1303,40 @@ def run(ctx):
                     atm.append({"product": product, "A": [Kx, 0.75, 1.5], "first": Kx, "T": 3, "dt": 0.25, "sigma": f32(0.3),
                                 "strike": Kx, "call": call, "dtype": dname})
     ctx.alphabet("at-the-money-at-inception strikes", [0.9, 1.03, 1.05, 1.3, "and their float32 roundings"])
-    jobs += [(30, "derivative_forms", b) for b in dblocks + atm]
+    # real-world drift of the underlier (irrelevant for the zero-rate risk-neutral quote), jump-diffusion underliers,
+    # and grids whose horizon differs from the option's own maturity
+    extra = []
+    for product in PRODUCTS:
+        for call in ([True, False] if HAS_PUT[product] else [True]):
+            for dname in ("float64", "float32"):
+                b0 = {"product": product, "A": [0.75, 1.0, 1.5], "T": 3, "dt": 0.25, "sigma": f32(0.3), "strike": 1.25,
+                      "call": call, "dtype": dname}
+                orc = dname == "float64"        # (the bitwise comparison with the functional form runs everywhere)
+                extra.append(dict(b0, under="brownian", mu=0.5, oracle=orc))
+                extra.append(dict(b0, under="merton", mu=-0.25, oracle=False))
+                extra.append(dict(b0, under="kou", mu=0.125, oracle=orc and ctx.thorough))
+                for off in (-2, -1, 2):
+                    extra.append(dict(b0, maturity_offset=off, T=4 if off < 0 else 3, oracle=orc and (off != -1 or ctx.thorough)))
+                extra.append(dict(b0, under="brownian", mu=0.5, maturity_offset=2, oracle=False))
+                extra.append(dict(b0, fx=1.25, oracle=orc))       # user subclass overriding moneyness()
+                extra.append(dict(b0, fx=0.5, strike=0.5, A=[0.75, 1.0, 1.5], oracle=False))
+    ctx.alphabet("underlier drift mu", [0.5, -0.25, 0.125])
+    ctx.alphabet("maturity minus grid horizon (steps)", [-2, -1, 2])
+    jobs += [(30, "derivative_forms", b) for b in dblocks + atm + extra]
+    # ---- attribute-mutation histories on the modules ----
+    ahist = [list(h) for d in range(1, ctx.pick(3, 4) + 1) for h in itertools.product(ATTR_OPS, repeat=d)]
+    for product in PRODUCTS:
+        for call0 in ([True, False] if HAS_PUT[product] else [True]):
+            for dname in ("float64", "float32"):
+                jobs.append((25, "attr_history", {"product": product, "call0": call0, "strike0": 1.0, "strike1": 2.5, "dtype": dname,
+                                                  "histories": ahist}))
     jobs += [(5, "flag_table", {"dtype": dname, "strike": K}) for dname in ("float64", "float32") for K in (1.0, 1.25)]
     # ---- re-simulation histories on a shared underlier ----
     ctx.alphabet("re-simulation routes", list(ROUTES))
     depth = 3
     hists = [list(h) for h in itertools.product(ROUTES, repeat=depth)]
-    rw = {"A": [0.75, 1.0, 1.5], "T": 3, "dt": 0.25, "sigma": 0.25, "strike": 1.25}
+    rw = {"A": [0.75, 1.0, 1.5], "T": 3, "dt": 0.25, "sigma": 0.25, "strike": 1.25, "mu": 0.25,
+          "mat_off": {"lookback": 2, "american_binary": -1, "european": 0, "european_binary": 3}}
     for r0 in ROUTES:
         jobs.append((45, "resim_history", dict(rw, dtype="float64", histories=[h for h in hists if h[0] == r0])))
     jobs.append((45, "resim_history", dict(rw, dtype="float32", histories=[list(h) for h in itertools.product(ROUTES, repeat=2)])))
@@ -1151,7 +1350,7 @@ def run(ctx):
 
     # ---- scenario arguments (some arguments supplied, the rest read from the derivative) ----
     W1 = {"under": "brownian", "A": [0.75, 1.0, 1.5], "T": 3, "dt": 0.25, "sigma": 0.25}
-    W2 = {"under": "brownian", "A": [1.0, 1.25, 2.0], "T": 4, "dt": 0.125, "sigma": 0.5}
+    W2 = {"under": "brownian", "A": [1.0, 1.25, 2.0], "T": 4, "dt": 0.125, "sigma": 0.5, "mu": 0.375}
     W3 = {"under": "heston", "A": [0.5, 1.5], "T": 3, "dt": 0.5, "sigma": 0.25}
     for product in PRODUCTS:
         for call in ([True, False] if HAS_PUT[product] else [True]):
